@@ -99,12 +99,13 @@ class MAUPITIConv2d(nn.Conv2d, MAUPITIModule):
                                                              int_bias)
         with torch.no_grad():
             if conv.bias is not None:
-                if not self.skip_requant:
-                    int_bias = int_bias * self.scale
-                    self.add_bias = int_bias.view(1, self.out_channels, 1, 1)
-                else:
+                if self.skip_requant:
                     self.bias = cast(torch.Tensor, self.bias)
                     self.bias.copy_(int_bias)
+                # also for the last layer: as in MAUPITILinear the bias is scaled and the output is
+                # rescaled by `scale / 2**shift` (~ s_w * s_x) in forward
+                int_bias = int_bias * self.scale
+                self.add_bias = int_bias.view(1, self.out_channels, 1, 1)
             else:
                 self.add_bias = torch.zeros((1, self.out_channels, 1, 1), device=self.device)
 
@@ -120,8 +121,8 @@ class MAUPITIConv2d(nn.Conv2d, MAUPITIModule):
                                               ).view(1, self.out_channels, 1, 1))
         else:
             with torch.no_grad():
-                self._zero_point = (self.bias -
-                                    self.in_offset *
+                self._zero_point = (self.add_bias -
+                                    self.in_offset * self.scale *
                                     torch.sum(self.weight, dim=(1, 2, 3)
                                               ).view(1, self.out_channels, 1, 1))
 
@@ -164,9 +165,13 @@ class MAUPITIConv2d(nn.Conv2d, MAUPITIModule):
             # Compute relu
             out = torch.clip(out, self.clip_inf, self.clip_sup)
         else:
-            # Convolution
-            out = F.conv2d(input, self.weight, self.bias, self.stride,
-                           self.padding, self.dilation, self.groups)
+            # Last layer: same integer convolution on the offset inputs (padded with the input
+            # offset), then the zero-point (scaled bias - input offset) and the rescaling to the
+            # real-valued logits, without floor and clip (as MAUPITILinear)
+            input = self.pad(input)
+            out = F.conv2d(input, self.weight, None, self.stride,
+                           'valid', self.dilation, self.groups)
+            out = (out * self.scale + self._zero_point) / (2 ** self.shift)
 
         return out
 
